@@ -94,10 +94,20 @@ func replay(f lib.Flags) int {
 		}
 	case "regen":
 		res := lib.NewResult("C12", f)
-		runRegen(f, res)
+		runRegen(f, res, nil)
 		for _, mm := range res.Monitors {
 			for _, v := range mm.Violations {
 				if vi, ok := v.Input.(map[string]any); ok && vi["key"] == in["key"] {
+					m.Violate(v.Signature, v.What, v.Input, v.Expected, v.Observed)
+				}
+			}
+		}
+	case "naming":
+		res := lib.NewResult("C12", f)
+		runRegen(f, res, nil)
+		for _, mm := range res.Monitors {
+			for _, v := range mm.Violations {
+				if vi, ok := v.Input.(namingCase); ok && vi.Dir == in["go_package_dir"] && vi.File == in["proto_base"] && vi.Service == in["service"] {
 					m.Violate(v.Signature, v.What, v.Input, v.Expected, v.Observed)
 				}
 			}
